@@ -738,6 +738,13 @@ def _subsets(n: int) -> List[List[int]]:
     return out
 
 
+def shapes_for(tier: str, n: int) -> int:
+    """How many of the R_SHAPES are assigned to the positions of an n-server file."""
+    if tier == "thorough":
+        return len(R_SHAPES) if n <= 3 else 3
+    return len(R_SHAPES) if n <= 2 else 3
+
+
 def configs_for(tier: str) -> Dict[str, Tuple[int, List[Dict[str, Any]]]]:
     """part name -> (max witness children alive in one case, cases)."""
     thorough = tier == "thorough"
@@ -777,7 +784,7 @@ def configs_for(tier: str) -> Dict[str, Tuple[int, List[Dict[str, Any]]]]:
     mixed_max_n = 3 if thorough else 2
     by_children: Dict[int, List[Dict[str, Any]]] = {}
     for n in range(1, max_n + 1):
-        for combo in itertools.product(range(len(R_SHAPES)), repeat=n):
+        for combo in itertools.product(range(shapes_for(tier, n)), repeat=n):
             servers = [R_SHAPES[c] for c in combo]
             if n >= 2:
                 for target in range(n):
@@ -787,7 +794,7 @@ def configs_for(tier: str) -> Dict[str, Tuple[int, List[Dict[str, Any]]]]:
                         {"entry": "test_server", "servers": servers, "request": [target], "verbose": False})
                 for sub in _subsets(n):
                     orders = [sub]
-                    if thorough and len(sub) >= 2:
+                    if thorough and len(sub) == n:
                         orders.append(list(reversed(sub)))
                     # quick: the 'interactive_mode' command function only with all names of the file
                     kinds = ["plain", "interactive_mode"] if (thorough or len(sub) == n) else ["plain"]
@@ -817,11 +824,19 @@ def run(tier: str, only=None) -> core.Result:
             continue
         workers = max(1, min(explorer.n_workers(), 16 // max(1, children)))
         out = explorer.explore(RUN, cfgs, workers=workers)
-        sched.absorb(res, name, RUN, out, cfgs)
+        # real OS processes: a violation counts only if it shows up again in both confirmation runs;
+        # audit mismatches are surfaced in coverage (audit_mismatches) instead of aborting the check
+        sched.absorb(res, name, RUN, out, cfgs, real_world=True)
         res.parts[name]["workers"] = workers
         res.parts[name]["max_children_per_case"] = children
     cov = res.coverage
     cov["exhaustive"] = True
+    # the explorer's samples depend on which worker finishes first; write out fixed positions instead
+    cov["samples"] = []
+    for name, (children, cfgs) in parts.items():
+        if name in res.parts and cfgs:
+            for idx in sorted({0, len(cfgs) // 2, len(cfgs) - 1}):
+                cov["samples"].append({"part": name, "index": idx, "cfg": cfgs[idx], "case": case_text(cfgs[idx])})
     launches = sum(p["counters"].get("witness_launches", 0) for p in res.parts.values())
     cov["programs"] = launches
     cov["real_child_processes_spawned"] = launches
@@ -835,6 +850,8 @@ def run(tier: str, only=None) -> core.Result:
         "server_names_by_position": NAMES,
         "entry_points": ENTRIES,
         "multi_server_shapes": [shape_text(s) for s in R_SHAPES],
+        "multi_server_shapes_used_by_file_size": {str(n): shapes_for(tier, n)
+                                                  for n in range(1, (4 if tier == "thorough" else 3) + 1)},
         "max_servers_per_file": 4 if tier == "thorough" else 3,
         "missing_file_variants": MISSING_VARIANTS,
         "invalid_json_variants": [n for n, _ in INVALID_JSON],
@@ -846,9 +863,10 @@ def run(tier: str, only=None) -> core.Result:
         "(1) one-server files = args(7) x env(4) x timeout(5) x extra-keys(2) x the three entry points "
         "(thorough: test_server also verbose, run_command also with an 'interactive_mode' command function); "
         "(2) malformed = {3 missing-path variants, 6 invalid-JSON texts, 4 file shapes x 3 unknown names} x entry points; "
-        "(3) files of 2..3 (thorough 4) servers, every assignment of 4 pairwise-different server shapes to the positions: "
+        "(3) files of 2..3 (thorough 4) servers, every assignment of the pairwise-different server shapes to the positions "
+        "(4 shapes; 3 shapes for 3-server files in quick and for 4-server files in thorough): "
         "load_config and test_server for every position, run_command for every non-empty subset of names in file order "
-        "(thorough: also reversed) with a plain command function, and with one named 'interactive_mode' (quick: only for "
+        "(thorough: the full set also reversed) with a plain command function, and with one named 'interactive_mode' (quick: only for "
         "the full set of names; thorough: for every subset), and run_command with all names plus one "
         "unknown name at every position (files of 1..2, thorough 1..3 servers).  "
         "A case is non-trivial if it ran the entry point to completion; distinct = distinct observation digests "
